@@ -38,7 +38,8 @@ EXPR_TOK = ["1", "2", "0", "-1", "1.5", ".5", "1e3", "1e400", "2e-400", "9" * 40
             "^", "mod", "div", "round", "=", "<>", "!=", "<", ">", "<=", ">=", "and", "or", "not", "(", ")", "ceil", "floor",
             "trunc", "abs", "exp", "ln", "sin", "cos", "tan", "asin", "acos", "atan", "sqrt", "fmod", "E", "PI", "x", ".", "e5", "1e",
             "--1", "1 1", "0^-1", "ln 0", "acos 2", "sqrt -1", "exp 1000", "10^1000", "1 mod 0", "1 div 0", "1/0", "1 round 1.5",
-            "1 round 400", "5 round -400", "2 e 9", "2 e 999999999", "1 e 1e9", "fmod", "10 fmod 0", "trunc 1e400", "ceil 1e308*10"]
+            "1 round 400", "5 round -400", "2 e 9", "2 e 999999999", "1 e 1e9", "0 e -99999999999", "(3-3) e -99999999999", "e -999999999",
+            "-99999999999", "0.0 e -99999999999", "1000 e -99999999999", "0 e 99999999999", "99999999999", "fmod", "10 fmod 0", "trunc 1e400", "ceil 1e308*10"]
 TITLES = ["Pg", "Talk:Zz", "User talk:A/b", "Template:Foo/doc", "Module:m", "Category:C", "Wiktionary:W/x/y", "Appendix talk:Q",
           "Thesaurus:t", "a/b/c", "Talk:a/b", "File:x.png", "MediaWiki talk:z", "Reconstruction:Proto/x", "Rhymes:English/a",
           ":x", "Main:y", "Special:Foo", "Help talk:h", "é語", "Citations:c"]
@@ -125,6 +126,24 @@ def graph_case(k, bits, rng):
     return lib, "{{ta}}{{%s|1}}" % names[-1]
 
 
+def periodic_branching(rng):
+    """Two or more recursive calls in ONE argument position: the stack repeats a single pattern, which the loop
+    detector recognises on the unchanged tree (returns in milliseconds)."""
+    k = rng.randint(2, 3)
+    sep = rng.choice(["-", "", " ", "x"])
+    inner = sep.join(["{{ta}}"] * k)
+    form = rng.randrange(4)
+    if form == 0:
+        lib = {"ta": "{{tb|" + inner + "}}", "tb": "[{{{1}}}]"}
+    elif form == 1:
+        lib = {"ta": "{{tb|n=" + inner + "}}", "tb": "[{{{n}}}]"}
+    elif form == 2:
+        lib = {"ta": "{{tb|q|" + inner + "}}", "tb": "[{{{2}}}]"}
+    else:
+        lib = {"ta": "{{tb|{{tc|" + inner + "}}}}", "tb": "[{{{1}}}]", "tc": "<{{{1}}}>"}
+    return lib, "{{ta}}"
+
+
 def deep_case(rng):
     d = rng.randint(1, 100)
     r = rng.random()
@@ -139,27 +158,74 @@ def deep_case(rng):
     return "{{lc:" * d + "ABC" + "}}" * d
 
 
+def call_contexts(text):
+    """Tiny brace scanner (harness-side, only used to NAME a runaway expansion): yields (callee, context) for every
+    {{callee|...}} in text, where context is the tuple of (enclosing callee, argument index) pairs inside this text."""
+    out = []
+    stack = []          # [callee, argindex]
+    i = 0
+    n = len(text)
+    while i < n:
+        if text.startswith("{{{", i) and not text.startswith("{{{{", i):
+            stack.append(["{{{", 0])       # parameter reference: not a call context, but its default may hold calls
+            i += 3
+            continue
+        if text.startswith("{{", i):
+            j = i + 2
+            k = j
+            while k < n and text[k] not in "|}{":
+                k += 1
+            callee = text[j:k].strip().lstrip("#").split(":")[0]
+            out.append((callee, tuple((c, a) for c, a in stack if c != "{{{")))
+            stack.append([callee, 0])
+            i = k
+            continue
+        if text.startswith("}}}", i) and stack and stack[-1][0] == "{{{":
+            stack.pop()
+            i += 3
+            continue
+        if text.startswith("}}", i):
+            if stack:
+                stack.pop()
+            i += 2
+            continue
+        if text[i] == "|" and stack:
+            stack[-1][1] += 1
+        i += 1
+    return out
+
+
 def recursion_shape(lib_texts, text):
-    """Mechanism tag for a runaway expansion: does some body (or the page) call templates that lie on a
-    call-graph cycle two or more times (branching => 2^depth re-expansion) or at most once (linear)?"""
-    import re
-    calls = {n: re.findall(r"\{\{\s*(t[a-e])\b", b) for n, b in lib_texts.items()}
-    reach = {n: set(v) for n, v in calls.items()}
+    """Mechanism tag for a runaway expansion.  Which bodies call templates that lie on a call-graph cycle, how many
+    times, and do those calls sit in the SAME argument position (the expansion stack then repeats one pattern, which the
+    loop detector is meant to recognise) or in DIFFERENT positions (aperiodic stack paths)?"""
+    calls = {nm: [(c, ctx) for c, ctx in call_contexts(b) if c in lib_texts] for nm, b in lib_texts.items()}
+    reach = {nm: {c for c, _ in v} for nm, v in calls.items()}
     changed = True
     while changed:
         changed = False
-        for n in reach:
-            new = set(reach[n])
-            for m in list(reach[n]):
+        for nm in reach:
+            new = set(reach[nm])
+            for m in list(reach[nm]):
                 new |= reach.get(m, set())
-            if new != reach[n]:
-                reach[n] = new
+            if new != reach[nm]:
+                reach[nm] = new
                 changed = True
-    cyc = {n for n in reach if n in reach[n]}
+    cyc = {nm for nm in reach if nm in reach[nm]}
     if not cyc:
         return "acyclic-library"
-    worst = max([sum(1 for x in v if x in cyc) for n, v in calls.items() if n in cyc] + [0])
-    return "cyclic-library/branching-recursion(>=2 calls into the cycle per body)" if worst >= 2 else "cyclic-library/linear-recursion"
+    worst, positions = 0, 0
+    for nm, v in calls.items():
+        if nm not in cyc:
+            continue
+        into = [ctx for c, ctx in v if c in cyc]
+        worst = max(worst, len(into))
+        positions = max(positions, len(set(into)))
+    if worst < 2:
+        return "cyclic-library/linear-recursion"
+    if positions >= 2:
+        return "cyclic-library/branching-recursion(>=2 calls into the cycle per body)"
+    return "cyclic-library/branching-recursion-in-one-argument-position(periodic stack pattern)"
 
 
 def part_a(c, rng, obs, budget, graph=None):
@@ -295,7 +361,11 @@ def run_shard(spec):
     for i in range(n):
         r = i % 10
         if r < 2:
-            if rng.random() < 0.2:
+            if i % 50 == 1:
+                lib_t, text = periodic_branching(rng)
+                case, probs = part_a(c, rng, obs, budget, graph=(lib_t, text))
+                obs.count("periodic-branching")
+            elif rng.random() < 0.2:
                 load_library(c, {"ta": "[{{{1|}}}]"})
                 text = deep_case(rng)
                 kind, val = run(c, "Pg", text, budget)
